@@ -50,6 +50,10 @@ def synth(rec):
         windows.append((k, bool(tbit)))
     pos = 0
     for wi, (ln, loud) in enumerate(windows):
+        if not loud and aq == 0 and not isinstance(uc, int):
+            out += bytes(ln * ch * sw)  # digital silence on every channel
+            pos += ln
+            continue
         hw = _h(salt, 7919 * (wi + 1))
         if ch == 1 or uc in MIX:
             loudset = set(range(ch)) if loud else set()
@@ -98,6 +102,9 @@ def decisions(data, rec, thr, uc="__rec__", guard=True):
     out = []
     for s in range(0, n, B):
         w = data[s * bps : min(s + B, n) * bps]
+        if thr > -200 and not any(w):
+            out.append(False)  # all-zero window: -200 dB
+            continue
         e = oracles.energy_db(w, sw, ch, uc)
         if guard and abs(float(e) - thr) < 3:
             raise HarnessError(f"synthesized window energy {e} within 3 dB of threshold {thr}")
@@ -158,10 +165,29 @@ def split_durations(win, aw):
 
 
 @st.composite
-def audio_case(draw, maxwin=30, maxB=12, maxmax=8):
+def audio_case(draw, maxwin=30, maxB=12, maxmax=8, shapes=False):
+    """shapes=True adds, one case in eight, recordings of a kind small random inputs never reach:
+    more than a hundred events, or activity that only starts after a minute / an hour (at 10 Hz
+    with one-sample windows, so they stay cheap)."""
     win = draw(split_windows(maxmax))
     from .gen import pattern as tokpat
 
     p = [win[0], win[1], win[2], 0, 0, 0]
-    rec = draw(recording(maxwin, maxB, pattern=tokpat(p, maxwin)))
+    shape = draw(st.sampled_from([9, 9, 9, 9, 9, 9, 9, 9, 9, 9, 9, 9, 0, 9, 9, 9, 9, 9, 9, 9, 9, 9, 9, 9, 1, 9, 9, 9, 9, 9, 9, 9, 9, 9, 9, 9, 9, 9, 9, 9, 9, 9, 9, 9, 9, 9, 9, 9])) if shapes else 99
+    if shape == 0:
+        unit = "1" * win[0] + "0" * (win[2] + 1)
+        pat = st.just(unit * draw(st.integers(100, 140)) + "1" * win[0])
+        rec = draw(recording(maxwin, 2, pattern=pat))
+        rec["shape"] = "many_events"
+    elif shape == 1:
+        lead = draw(st.sampled_from([598, 600, 601, 599, 602, 600, 601, 35999, 36000]))
+        body = draw(tokpat(p, 24))
+        rec = draw(recording(maxwin, 1, channels=(1, 2), pattern=st.just("0" * lead + body)))
+        rec["sr"], rec["B"], rec["tail"] = 10, 1, [0, 0]
+        rec["aq"] = 0
+        if isinstance(rec["uc"], int):
+            rec["uc"] = None
+        rec["shape"] = "late_activity"
+    else:
+        rec = draw(recording(maxwin, maxB, pattern=tokpat(p, maxwin)))
     return {"audio": rec, "win": win}
